@@ -3546,7 +3546,13 @@ func (a *Association) handleForwardTSN(chunkTSN *chunkForwardTSN) []*packet {
 	// corresponding streams so that the abandoned chunks can be removed
 	// from the reassemblyQueue.
 	for _, forwarded := range chunkTSN.streams {
-		if s, ok := a.streams[forwarded.identifier]; ok {
+		s, ok := a.streams[forwarded.identifier]
+		if !ok {
+			// The skipped message may be the first one the peer sent on this
+			// stream: the cursor must still move or everything after it stalls.
+			s = a.getOrCreateStream(forwarded.identifier, true, PayloadTypeUnknown)
+		}
+		if s != nil {
 			s.handleForwardTSNForOrdered(forwarded.sequence)
 		}
 	}
@@ -3587,7 +3593,12 @@ func (a *Association) handleIForwardTSN(chunkTSN *chunkIForwardTSN) []*packet {
 	a.payloadQueue.advanceCumulativeTSN(chunkTSN.newCumulativeTSN)
 
 	for _, forwarded := range chunkTSN.streams {
-		if s, ok := a.streams[forwarded.identifier]; ok {
+		s, ok := a.streams[forwarded.identifier]
+		if !ok {
+			// see handleForwardTSN: the skipped message may be the first on its stream.
+			s = a.getOrCreateStream(forwarded.identifier, true, PayloadTypeUnknown)
+		}
+		if s != nil {
 			if forwarded.unordered {
 				s.handleForwardTSNForUnorderedMID(forwarded.messageIdentifier)
 			} else {
